@@ -148,6 +148,8 @@ def rig_r(chk, tier, seed):
                     continue
                 if base is None or base[0] != "ok":
                     continue
+                if cnt % 9973 == 7:
+                    chk.sample({"decoder": name, "x": x.hex()[:60], "s": s.hex()[:30], "alone": base[2][:40], "with_suffix": r[2][:40], "left_over": r[1]}, limit=5)
                 if r[0] != "ok" or r[1] != len(s) or r[2] != base[2]:
                     chk.violation("extent:%s" % cls,
                                   "[%s] %s(x||s) with x=%s s=%s gave %s rest=%s value %s ; alone the value is %s" % (
@@ -199,10 +201,15 @@ def worker(job):
         def f(req):
             if not req.ok:
                 return None
+            if st.get("overrun"):
+                d, val = st["overrun"]
+                sc = B.enc_scoped(agent.engine_id, b"", B.enc_pdu(B.PDU_RESPONSE, req.request_id, 0, 0,
+                                                                 [B.enc_varbind((req.oids() or [(1, 3)])[0], B.enc_octets(val))]))
+                return agent.reply(req, scoped_raw=sc[:-d], des_truncate=True)
             return agent.reply(req, st["vbs"])
         return agent.discovery_or(req, f)
     agent = rigp.Agent(handler, users=[cfg.user_keys()]).start()
-    drv = driver.Driver(cfg, agent, timeout=2.0).create()
+    drv = driver.Driver(cfg, agent, timeout=0.3 if cfg.priv else 2.0).create()
     drv.call("open")
     kinds = [k for k in M.KINDS if k != "Null"]
     for i in range(job["n"]):
@@ -220,6 +227,24 @@ def worker(job):
                (out[0] == "exc" and "DecodeError" in out[1]["cls"] and extra != b"")
         if out[0] == "exc" and out[1]["cls"] == "TimeoutError":
             continue
+        if cfg.priv and i % 6 == 5:
+            # after that honest exchange (the cipher's private buffer now holds its plaintext): a reply whose
+            # scoped PDU declares d octets more than the ciphertext carries must never produce a value
+            d = rng.randrange(1, 16)
+            val = bytes(rng.randrange(256) for _ in range(rng.randrange(20, 40)))
+            sc = B.enc_scoped(agent.engine_id, b"", B.enc_pdu(B.PDU_RESPONSE, 0, 0, 0, [B.enc_varbind(oid, B.enc_octets(val))]))
+            st["overrun"] = (d, val)
+            o2 = drv.call("get_many", [B.oid_text(oid)])
+            st["overrun"] = None
+            res["cases"] += 1
+            res["classes"]["overrun"] = 1
+            if o2[0] == "ok" and o2[1]:
+                if len(res["bad"]) < 50:
+                    res["bad"].append({"cls": "overrun", "msg": "%s: an encrypted reply whose scoped PDU declares %d octets more than were sent was accepted and delivered %s" % (
+                        cfg.key(), d, repr(o2)[:160]), "tlv": "", "extra": ""})
+            drv.close()
+            drv = driver.Driver(cfg, agent, timeout=0.3).create()
+            drv.call("open")
         if not good and len(res["bad"]) < 50:
             res["bad"].append({"cls": v["cls"], "msg": "%s: value %s followed by %s inside its varbind and %d more varbinds was delivered as %s (alone: %r)" % (
                 cfg.key(), v["tlv"].hex()[:40], extra.hex()[:30], len(others), repr(out)[:120], M.jv(v["py"])), "tlv": v["tlv"].hex(), "extra": extra.hex()})
@@ -262,7 +287,6 @@ def main():
                 "followed by extra octets inside its varbind and by further varbinds is delivered unchanged (or the reply is rejected). "
                 "distinct = (decoder, value class) classes.")
     chk.assumptions = ["value rendering through verif::typed_from_ber / verif::project is faithful (feature 'verif')"]
-    chk.sample({"x": "09 04 01 34 35 36", "s": "37", "expected": "rest 1, value 456.0"})
     rig_r(chk, a.tier, a.seed)
     rig_p(chk, a.tier, a.seed)
     if a.tier == "thorough":
